@@ -18,7 +18,8 @@
 (*   outcome_as_specified, container_mirrors_directory,                      *)
 (*   recorded_source_is_directory, packer_recorded, refused_changes_nothing, *)
 (*   refused_creates_nothing, writes_only_diff, writes_all_of_diff,          *)
-(*   one_container_per_run, file_metadata_exact                              *)
+(*   one_container_per_run, file_metadata_exact,                             *)
+(*   packer_cannot_finalize_or_read                                          *)
 (***************************************************************************)
 EXTENDS Naturals, Sequences, FiniteSets, Json, IOUtils, TLC
 
@@ -53,6 +54,9 @@ Clauses(e, c, l, before) ==
           THEN {"writes_all_of_diff"} ELSE {})
     \cup (IF l = "ok" /\ e.nfiles >= 0 /\ e.nfiles # c.gen THEN {"one_container_per_run"} ELSE {})
     \cup (IF c # NoCont /\ e.exists /\ ~e.filemeta THEN {"file_metadata_exact"} ELSE {})
+    \* requirements 1 and 2 of the Packer contract: the container a packer is handed cannot be finalized and yields no
+    \* data, attribute values or metadata objects (probed from inside the packer at the end of every run)
+    \cup (IF e.probes # <<>> THEN {"packer_cannot_finalize_or_read"} ELSE {})
 
 Init == tid \in 1..Len(Traces) /\ i = 1 /\ bad = {} /\ dir = {Dir(<<>>)} /\ cont = NoCont /\ last = "-"
 Step ==
